@@ -253,3 +253,64 @@ func specTypeOf(ptype int, stype int) string {
 //@   ensures typeis(result, *ControlMessage) && fresh(result) && fresh(h) && len(h) == 10
 //@   ensures h[0] == 255 && h[1] == 255 && h[2] == 0 && h[3] == 0 && h[4] == 0 && h[5] == 6
 //@   ensures h[6] == q[6] && h[7] == q[7] && h[8] == q[8] && h[9] == q[9]
+
+// ---------------------------------------------------------------------------------------------
+// DataMessage (ast.go)
+
+func specValidDirection(d string) bool {
+	return d == "H->E" || d == "H<-E" || d == "H<->E"
+}
+
+// specMsgFieldsOK: the rep invariant of DataMessage except for the message name.
+func specMsgFieldsOK(stream int, function int, waitBit int, sessionID int, nSystemBytes int, direction string) bool {
+	return 0 <= stream && stream < 128 && 0 <= function && function < 256 &&
+		0 <= waitBit && waitBit <= 2 && !(waitBit == 1 && function%2 == 0) &&
+		-1 <= sessionID && sessionID < 65536 && nSystemBytes == 4 && specValidDirection(direction)
+}
+
+//@ type DataMessage invariant specMsgFieldsOK(self.stream, self.function, self.waitBit, self.sessionID, len(self.systemBytes), self.direction)
+//@   invariant !has_space_rune(self.name)
+
+//@ func (*DataMessage).checkRep
+//@   property C12 C18 C06
+//@   panics_iff has_space_rune(node.name) || !specMsgFieldsOK(node.stream, node.function, node.waitBit, node.sessionID, len(node.systemBytes), node.direction)
+//@   loop 1
+//@     invariant 0 <= iterpos && rune_start(node.name, iterpos)
+//@     invariant forall p int :: 0 <= p && p < iterpos && rune_start(node.name, p) ==> !is_space(rune_at(node.name, p))
+
+//@ func NewDataMessage
+//@   property C12 C06
+//@   panics_iff has_space_rune(name) || !specMsgFieldsOK(stream, function, waitBit, -1, 4, direction)
+//@   ensures fresh(result) && result.name == name && result.stream == stream && result.function == function
+//@   ensures result.waitBit == waitBit && result.direction == direction && result.dataItem == dataItem && result.sessionID == -1
+//@   ensures len(result.systemBytes) == 4 && fresh(result.systemBytes)
+//@   ensures forall k int :: 0 <= k && k < 4 ==> result.systemBytes[k] == 0
+
+//@ func (*DataMessage).SetWaitBit
+//@   property C18 C11 C12
+//@   panics_iff node.waitBit == 2 && waitBit && node.function % 2 == 0
+//@   ensures node.waitBit != 2 ==> result == node
+//@   ensures node.waitBit == 2 ==> fresh(result) && result.waitBit == ite(waitBit, 1, 0)
+//@   ensures node.waitBit == 2 ==> result.name == node.name && result.stream == node.stream && result.function == node.function
+//@   ensures node.waitBit == 2 ==> result.direction == node.direction && result.dataItem == node.dataItem
+//@   ensures node.waitBit == 2 ==> result.sessionID == node.sessionID && result.systemBytes == node.systemBytes
+
+//@ func (*DataMessage).SetSessionIDAndSystemBytes
+//@   property C18 C11 C12
+//@   panics_iff !(-1 <= sessionID && sessionID < 65536)
+//@   ensures fresh(result) && result.sessionID == sessionID
+//@   ensures fresh(result.systemBytes) && len(result.systemBytes) == 4
+//@   ensures forall k int :: 0 <= k && k < 4 && k < len(systemBytes) ==> result.systemBytes[k] == systemBytes[k]
+//@   ensures forall k int :: 0 <= k && k < 4 && k >= len(systemBytes) ==> result.systemBytes[k] == 0
+//@   ensures result.name == node.name && result.stream == node.stream && result.function == node.function
+//@   ensures result.waitBit == node.waitBit && result.direction == node.direction && result.dataItem == node.dataItem
+//@   loop 1
+//@     invariant 0 <= rangeindex+1 && rangeindex+1 <= len(systemBytes) && rangeindex+1 <= 4
+//@     invariant len(systemBytesCopy) == 4 && fresh(systemBytesCopy)
+//@     invariant forall k int :: 0 <= k && k <= rangeindex ==> systemBytesCopy[k] == systemBytes[k]
+//@     invariant forall k int :: rangeindex < k && k < 4 ==> systemBytesCopy[k] == 0
+
+//@ func (*DataMessage).SystemBytes
+//@   property C11 C17
+//@   ensures len(result) == 4 && fresh(result)
+//@   ensures forall k int :: 0 <= k && k < 4 ==> result[k] == node.systemBytes[k]
